@@ -395,6 +395,161 @@ def run_cf(case, log, stats):
 # ------------------------------------------------------------------------------------------------
 
 
+def gen_multi(rng, tier):
+    """two or three live instances of the same class over overlapping domains, operated in turn"""
+    which = rng.choice(["cf", "cf", "pq"])
+    n = rng.choice([2, 2, 3])
+    subs = [gen_cf(rng, tier) if which == "cf" else gen_pq(rng, tier) for _ in range(n)]
+    if which == "cf":
+        # overlapping values: all instances share one domain
+        dom = subs[0]["domain"]
+        vals = [tuple(v) if isinstance(v, list) else v for v in dom]
+        for sub in subs[1:]:
+            sub["domain"] = dom
+            new_ops = []
+            for op in sub["ops"]:
+                if op[0] == "merge":
+                    x, y = rng.sample(vals, 2)
+                    new_ops.append(["merge", list(x) if isinstance(x, tuple) else x, list(y) if isinstance(y, tuple) else y])
+                else:
+                    v = rng.choice(vals)
+                    new_ops.append(["find", list(v) if isinstance(v, tuple) else v])
+            sub["ops"] = new_ops
+    else:
+        dom0 = subs[0]["domain"]
+        for sub in subs[1:]:
+            own = sub["domain"]
+            remap = {it: dom0[k % len(dom0)] for k, it in enumerate(own)}
+            new_ops = []
+            for op in sub["ops"]:
+                if op[0] == "push":
+                    new_ops.append(["push", op[1], remap.get(op[2], dom0[0])])
+                elif op[0] == "change":
+                    new_ops.append(["change", remap.get(op[1], dom0[0]), op[2]])
+                elif op[0] == "pop":
+                    new_ops.append(["pop"])
+            sub["domain"] = dom0
+            sub["ops"] = new_ops
+        subs[0]["ops"] = [op for op in subs[0]["ops"] if op[0] in ("push", "change", "pop")]
+    # interleave, keeping each instance's own order; an instance is created at its first operation
+    queues = [list(sub["ops"][:60]) for sub in subs]
+    ops = []
+    while any(queues):
+        i = rng.choice([k for k, q in enumerate(queues) if q])
+        burst = rng.choice([1, 1, 2, 5])
+        for _ in range(burst):
+            if queues[i]:
+                ops.append([i] + queues[i].pop(0))
+    return {"kind": "multi", "which": which, "n": n, "domains": [sub["domain"] for sub in subs], "ops": ops,
+            "knobs": {"which": which, "instances": n}}
+
+
+def run_multi(case, log, stats):
+    """each instance has its own model; an operation on one instance must not be visible in another"""
+    subs = []
+    for i in range(case["n"]):
+        subs.append({"kind": case["which"], "domain": case["domains"][i], "ops": []})
+    # replay by re-running every instance's prefix would hide nothing but costs O(n^2); instead drive live objects
+    from whatshap.graph import ComponentFinder
+    from whatshap.priorityqueue import PriorityQueue
+
+    def dec(v):
+        return tuple(v) if isinstance(v, list) else v
+
+    live = {}
+    viol = []
+    nstates = 0
+    for step, op in enumerate(case["ops"]):
+        i, name = op[0], op[1]
+        if i not in live:
+            if case["which"] == "cf":
+                vals = [dec(v) for v in case["domains"][i]]
+                live[i] = {"obj": ComponentFinder(vals), "block": {v: frozenset([v]) for v in vals}, "vals": vals}
+            else:
+                live[i] = {"obj": PriorityQueue(), "model": {}, "vals": list(case["domains"][i])}
+            stats.inc("instances_created")
+        inst = live[i]
+        if case["which"] == "cf":
+            if name == "merge":
+                x, y = dec(op[2]), dec(op[3])
+                if x == y or x not in inst["block"] or y not in inst["block"]:
+                    stats.inc("skipped_ops")
+                    continue
+                inst["obj"].merge(x, y)
+                nb = inst["block"][x] | inst["block"][y]
+                for v in nb:
+                    inst["block"][v] = nb
+                stats.inc("op_merge")
+            else:
+                x = dec(op[2])
+                if x not in inst["block"]:
+                    continue
+                inst["obj"].find(x)
+                stats.inc("op_find")
+            # every live instance must still agree with its own model
+            for j, other in sorted(live.items()):
+                probe = copy.deepcopy(other["obj"])
+                for v in other["vals"]:
+                    got = probe.find(v)
+                    want = min(other["block"][v])
+                    if got != want:
+                        viol.append(violation("cf-instances-interfere" if j != i else "cf-representative",
+                                              "after op %d (%s on instance %d): instance %d: find(%r)=%r, minimum of its component %r is %r" % (
+                                                  step, name, i, j, v, got, sorted(other["block"][v]), want),
+                                              "cf-instances-interfere" if j != i else "cf-representative"))
+                        return viol, nstates
+        else:
+            m = inst["model"]
+            if name == "push":
+                s, item = op[2], op[3]
+                if item in m:
+                    continue
+                inst["obj"].push(tuple(s) if isinstance(s, list) else s, item)
+                m[item] = norm_score(s)
+                stats.inc("op_push")
+            elif name == "pop":
+                if not m:
+                    try:
+                        inst["obj"].pop()
+                    except IndexError:
+                        continue
+                    viol.append(violation("pq-pop-empty", "op %d: pop() on an empty queue (instance %d) did not raise" % (step, i), "pq-pop-empty"))
+                    return viol, nstates
+                score, item = inst["obj"].pop()
+                mx = max(m.values())
+                if item not in m or m[item] != mx or norm_score(score) != mx:
+                    viol.append(violation("pq-pop-order", "op %d: instance %d: pop() returned (%r, %r), model maximum is %r" % (step, i, score, item, ext_score(mx)), "pq-pop-order"))
+                    return viol, nstates
+                del m[item]
+                stats.inc("op_pop")
+            elif name == "change":
+                item, s = op[2], op[3]
+                if item not in m:
+                    continue
+                inst["obj"].change_score(item, tuple(s) if isinstance(s, list) else s)
+                m[item] = norm_score(s)
+                stats.inc("op_change")
+            else:
+                continue
+            for j, other in sorted(live.items()):
+                if len(other["obj"]) != len(other["model"]):
+                    viol.append(violation("pq-instances-interfere" if j != i else "pq-len", "after op %d on instance %d: instance %d has len %d, its model %d" % (
+                        step, i, j, len(other["obj"]), len(other["model"])), "pq-instances-interfere" if j != i else "pq-len"))
+                    return viol, nstates
+                for it in other["vals"]:
+                    got = other["obj"].get_score_by_item(it)
+                    want = ext_score(other["model"][it]) if it in other["model"] else None
+                    if got != want:
+                        viol.append(violation("pq-instances-interfere" if j != i else "pq-score",
+                                              "after op %d on instance %d: instance %d: get_score_by_item(%d)=%r, model says %r" % (step, i, j, it, got, want),
+                                              "pq-instances-interfere" if j != i else "pq-score"))
+                        return viol, nstates
+        nstates += 1
+        log.add("step", [i, name])
+    stats.inc("multi_instance_steps", nstates)
+    return viol, nstates
+
+
 class AdtEngine(Engine):
     name = "adtsim"
     properties = ("C18",)
@@ -406,9 +561,12 @@ class AdtEngine(Engine):
         }
 
     def gen(self, prop, rng, tier):
-        if rng.random() < 0.7:
+        x = rng.random()
+        if x < 0.62:
             return gen_pq(rng, tier)
-        return gen_cf(rng, tier)
+        if x < 0.9:
+            return gen_cf(rng, tier)
+        return gen_multi(rng, tier)
 
     def run(self, prop, case):
         log = EventLog()
@@ -417,6 +575,9 @@ class AdtEngine(Engine):
             if case["kind"] == "pq":
                 viol, nstates = run_pq(case, log, stats)
                 stats.inc("pq_histories")
+            elif case["kind"] == "multi":
+                viol, nstates = run_multi(case, log, stats)
+                stats.inc("multi_instance_histories")
             else:
                 viol, nstates = run_cf(case, log, stats)
                 stats.inc("cf_histories")
@@ -428,7 +589,6 @@ class AdtEngine(Engine):
             viol, nstates = [violation(cls, "legal operation raised %s: %s\n%s" % (type(e).__name__, e, tb[-600:]), cls + ":" + type(e).__name__)], 0
         for v in viol:
             log.add("violation", v["class"])
-        kinds = "".join(o[0][0] for o in case["ops"])
         return {
             "log_digest": log.digest(),
             "violations": viol,
